@@ -168,6 +168,9 @@ impl<D: DataT, E: FromBoxError> MultipartStream<D, E> {
                 && (!(r matches Poll::Ready(Some(Err(_)))) ==> final(self).state <= old(self).state + 2)
                 && ((r matches Poll::Pending || r matches Poll::Ready(None)) ==> final(self).state == old(self).state)
                 && ((r matches Poll::Pending) ==> final(self).state % 2 == 1),
+            /*@C02,C06 #part_stream_continues*/ old(self).cur matches Some(c0) ==> (
+                    (r matches Poll::Pending ==> (final(self).cur matches Some(c1) && c1.stream == c0.stream.after() && c1.remaining == c0.remaining))
+                    && ((r matches Poll::Ready(Some(Ok(_))) && final(self).state == old(self).state) ==> (final(self).cur matches Some(c1) && c1.stream == c0.stream.after()))),
             /*@C06,C02 #frame_identity*/ r matches Poll::Ready(Some(Ok(d))) ==> {
                 let n = old(self).ranges@.len();
                 let i = final(self).state as int / 2;
@@ -183,6 +186,7 @@ impl<D: DataT, E: FromBoxError> MultipartStream<D, E> {
     //@ | this.ranges == old(self).ranges, this.entity == old(self).entity, this.part_headers@ == old(self).part_headers@,
     //@ | this.state == old(self).state || (this.state == old(self).state + 1 && this.state % 2 == 0 && this.cur.is_none()),
     //@ | old(self).terminal() ==> this.terminal(),
+    //@ | (old(self).cur.is_some() && this.state == old(self).state) ==> this.cur == old(self).cur,
     //@ | /*@C07 #inv_first_poll_or_clean_part_end*/ this.cur == old(self).cur || (old(self).cur matches Some(c) ==> (c.stream.next_item() matches Poll::Ready(None) && c.remaining == 0)),
     //@ | decreases 2 * this.ranges@.len() + 1 - this.state, (if this.cur.is_some() { 0int } else { 1int }),
     //@ after "loop {": proof { lemma_bits(this.state); lemma_bits(this.ranges.len()); lemma_rest_nonneg(this.part_headers@, this.ranges@, (this.state / 2) as int + 1); lemma_rest_nonneg(this.part_headers@, this.ranges@, (this.state / 2) as int); } let ghost pre = *this; let ghost ph0 = this.part_headers@;
